@@ -240,8 +240,8 @@ theorem checkoutFile_holds {ctx : Ctx κ} (g : Good ctx) {s : Store κ} {x : κ}
   have hh := hasSum_H g x
   have hhas := Store.has_of_get h
   cases strat with
-  | link => simp [checkoutFile, quick, hh, hhas, h, wsAfter, linked]
-  | copy => simp [checkoutFile, quick, hh, hhas, h, hb, wsAfter]
+  | link => simp [checkoutFile, upToDateCopy, quick, hh, hhas, h, wsAfter, linked]
+  | copy => simp [checkoutFile, upToDateCopy, quick, hh, hhas, h, hb, wsAfter]
 
 mutual
 /-- `checkoutNode` into an absent place from any store holding the tree: the exact result. -/
